@@ -200,6 +200,11 @@ func ruleR20ab(h *H) {
 				handle = fn
 			}
 		}
+		inlined := false
+		if handle == nil && complete != nil && len(callbackCalls(complete)) > 0 {
+			// the response handler written out inside Complete
+			handle, inlined = complete, true
+		}
 		if failFn == nil || complete == nil || handle == nil {
 			h.Anchor(rb, "Fail / Complete / response handler of "+tn)
 			continue
@@ -283,6 +288,11 @@ func ruleR20ab(h *H) {
 			}
 		})
 		name := ir.FuncName(complete) + ": one answer per batch"
+		if inlined {
+			bad := inlinedHandlerAnswersOnce(complete, failCalls, tp, tn)
+			h.Verdict(bad == "", rb, name, h.P.Pos(complete.Pos()), "exactly one of Fail / the inlined response handling on every path after the request was executed", bad)
+			continue
+		}
 		if len(failCalls) == 0 && len(handleCalls) == 0 {
 			// the Fail-or-handle decision extracted into a helper that Complete calls once
 			var disp *ssa.Function
@@ -365,6 +375,74 @@ func ruleR20ab(h *H) {
 		}
 		h.Verdict(bad == "", rb, name, h.P.Pos(complete.Pos()), "exactly one of Fail / handle on every path after the request was executed", bad)
 	}
+}
+
+// inlinedHandlerAnswersOnce: Complete with the response handling written out in its
+// success branch: the callbacks run only when the executed request succeeded, Fail only
+// otherwise, never both, and no return after the execution bypasses both branches.
+func inlinedHandlerAnswersOnce(complete *ssa.Function, failCalls []ssa.Instruction, tp *ssa.Function, tn string) string {
+	var exec ssa.Instruction
+	ir.Instrs(complete, func(in ssa.Instruction) {
+		c := ir.CallOf(in)
+		if c == nil || exec != nil {
+			return
+		}
+		if f := c.StaticCallee(); f != nil && f != tp && f.Signature.Recv() != nil && ir.TypeIs(f.Signature.Recv().Type(), batchPkg, tn) && f.Signature.Results().Len() == 2 {
+			exec = in
+		}
+	})
+	if exec == nil {
+		return "cannot find the call that executes the request"
+	}
+	if len(failCalls) == 0 {
+		return "Complete does not call Fail when the request failed"
+	}
+	ev := ir.ErrResult(exec.(ssa.CallInstruction))
+	if ev == nil {
+		return "the result of the executed request is not checked"
+	}
+	var cbs []ssa.Instruction
+	for _, c := range callbackCalls(complete) {
+		cbs = append(cbs, c)
+	}
+	for _, c := range cbs {
+		if ok, _ := ir.OkOnly(complete, ev, exec, c); !ok {
+			return "the response handling can run although the request failed (nil response)"
+		}
+		for _, f := range failCalls {
+			if r, _ := ir.Reach(ir.Search{From: c}, ir.Is(f)); r {
+				return "a batch can be answered twice (response handling and then Fail on one path)"
+			}
+			if r, _ := ir.Reach(ir.Search{From: f}, ir.Is(c)); r {
+				return "a batch can be answered twice (Fail and then the response handling on one path)"
+			}
+		}
+	}
+	// after the execution: the failure branch reaches Fail, the success branch is the handling
+	success := map[*ssa.BasicBlock]bool{}
+	for _, t := range ir.NilTests(ev) {
+		success[t.NilSucc] = true
+	}
+	barrier := func(in ssa.Instruction) bool {
+		if success[in.Block()] {
+			return true
+		}
+		for _, f := range failCalls {
+			if in == f {
+				return true
+			}
+		}
+		return false
+	}
+	bad := ""
+	ir.Instrs(complete, func(in ssa.Instruction) {
+		if _, ok := in.(*ssa.Return); ok && bad == "" {
+			if r, _ := ir.Reach(ir.Search{From: exec, Barrier: barrier}, ir.Is(in)); r {
+				bad = "Complete can return after executing the request without answering the queued calls"
+			}
+		}
+	})
+	return bad
 }
 
 func sortedVals(m map[string]string) []string {
